@@ -44,6 +44,14 @@ CHECKS = {
          "checks the shift-equivalence theorem (-c X versus X as extra input) and emits expected results replayed into Data(clim=...).",
     technique="TLA+ spec (Dataset.tla Adj) model-checked with TLC; generated datasets replayed into verif.data.Data with clim",
     ref="6/C14"),
+ "C07": dict(
+    text="Events.tla states the eight bin types as events in four formulations (by cases, as intervals, as binary thresholding, as "
+         "event probability from the CDF); TLC checks the partition / complement / NaN / agreement lemmas on the complete set of order "
+         "relations of a value to 1-3 thresholds (below, equal, between, equal, above, NaN, -inf, +inf) and every case is replayed into "
+         "Interval.within (scalar, array), util.get_intervals, util.apply_threshold and util.apply_threshold_prob; exhaustive for the "
+         "property's own quantifier. The thorough tier adds an Apalache (SMT) proof of the order lemmas over unbounded integers.",
+    technique="TLA+ spec (Events.tla) model-checked with TLC (+ Apalache over unbounded Int); every enumerated placement replayed into verif.interval / verif.util",
+    ref="6/C07"),
  "C18": dict(
     text="DataImpl.tla models Data.get_scores as the code has it (heap of mutable arrays, per-input field cache handed out without "
          "copying, request cache, observation sharing by aliasing, in-place propagation and -obsrange); TLC checks that it refines "
